@@ -222,6 +222,26 @@ def run_case(desc):
                     viols.append({"clause": "parse-ticker-not-normalised", "signature": "parse-ticker-not-normalised",
                                   "detail": f"{t['ticker']} vs {w['ticker']}", "case": {"op": "parse", "text": "\n".join(varied)}})
                     break
+        # JSON input accepts any string as a ticker (the DSL grammar only ASCII): letters outside ASCII have case too
+        names = {}
+        pool = ["NESTLÉ", "ØRSTED", "SOCIÉTÉ", "ÅKER", "MÜNCHEN", "PEÑA", "ÇA", "ÉÉ1"]
+        for tk in sorted({t["ticker"] for t in txs}):
+            names[tk] = pool[len(names) % len(pool)] + (str(len(names)) if len(names) >= len(pool) else "")
+        ren = [dict(t, ticker=names[t["ticker"]]) for t in txs]
+        ob, ov = p.run([lc.calc_case(json_text=to_json_text(ren, lambda t: t)),
+                        lc.calc_case(json_text=to_json_text(ren, cf))])
+        n_eval += 2
+        cnt["case_variant_inputs_json_non_ascii"] += 1
+        jcase = {"op": "calc_json_pair", "upper": to_json_text(ren, lambda t: t), "mixed": to_json_text(ren, cf)}
+        if ("ok" in ob) != ("ok" in ov):
+            viols.append({"clause": "case-variant-acceptance", "signature": "case-variant-acceptance:json-non-ascii",
+                          "detail": f"upper-case accepted={'ok' in ob}, mixed-case: {str(ov.get('err'))[:200]}", "case": jcase})
+        elif "ok" in ob:
+            diffs = lc.compare_reports(lc.parse_report(ob["ok"]["report"]), lc.parse_report(ov["ok"]["report"]), exact=True,
+                                       label=("upper", "mixed-json-non-ascii"))
+            if diffs:
+                viols.append({"clause": "case-variant-differs", "signature": "case-variant-differs:json-non-ascii",
+                              "detail": "; ".join(diffs[:3]), "case": jcase})
         if len(samples) < 1:
             samples.append({"mixed_case_dsl": varied[:6]})
     return {"evaluations": n_eval, "nontrivial_hashes": hashes, "counters": cnt, "violations": cap_viols(viols), "samples": samples}
@@ -232,6 +252,18 @@ def run_shard(desc):
 
 
 def replay(case):
+    if case.get("op") == "calc_json_pair":
+        ob, ov = probe().run([lc.calc_case(json_text=case["upper"]), lc.calc_case(json_text=case["mixed"])])
+        vs = []
+        if ("ok" in ob) != ("ok" in ov):
+            vs.append({"clause": "case-variant-acceptance", "signature": "case-variant-acceptance:json-non-ascii",
+                       "detail": f"upper accepted={'ok' in ob}; mixed: {str(ov.get('err'))[:200]}"})
+        elif "ok" in ob:
+            diffs = lc.compare_reports(lc.parse_report(ob["ok"]["report"]), lc.parse_report(ov["ok"]["report"]), exact=True,
+                                       label=("upper", "mixed"))
+            if diffs:
+                vs.append({"clause": "case-variant-differs", "signature": "case-variant-differs:json-non-ascii", "detail": "; ".join(diffs[:3])})
+        return vs, {"upper": ob, "mixed": ov}
     txs = case["txs"]
     tickers = sorted({t["ticker"] for t in txs})
     obs = probe().run([lc.calc_case(txs)] + [lc.calc_case([t for t in txs if t["ticker"] == tk]) for tk in tickers])
@@ -241,7 +273,7 @@ def replay(case):
 
 
 THRESHOLDS = {"ledgers_with_same_date_collisions": 500, "disposals_compared": 5000, "case_variant_inputs_dsl": 300,
-              "case_variant_inputs_json": 300}
+              "case_variant_inputs_json": 300, "case_variant_inputs_json_non_ascii": 300}
 RULE = ("ledgers over 2-6 securities interleaved by date (30-day claims, reservations, splits and capital events in "
         "several securities at once) vs the per-security projections, compared exactly (Decimal ==) on disposals, legs "
         "and holdings and additively on year totals; plus mixed-case ticker spellings through the DSL and JSON input "
